@@ -443,7 +443,10 @@ func (r *c10RT) label(l string) {
 	}
 }
 
+var c10ExcludedTotal int // datagrams / actors skipped in this process because of open findings
+
 func (r *c10RT) excluded(sig string) {
+	c10ExcludedTotal++
 	r.label("excluded:" + sig)
 	if r.rec != nil {
 		r.rec.Excluded(sig)
@@ -1477,7 +1480,8 @@ func TestVerifC10Sweep(t *testing.T) {
 			}
 		}
 	}
-	rec.SetExhaustive(complete)
+	// complete only if nothing of the enumerated space had to be skipped because of an open finding
+	rec.SetExhaustive(complete && c10ExcludedTotal == 0)
 	rec.AddExtra("datagrams", datagrams)
 	rec.Extra("enumerated", "every message of an honest discoverable and hidden run (10 messages), every truncation length 0..len, first byte kept and replaced by each other valid type byte, bytes 4..8 kept and replaced by a live session id, against 7 server state/configuration pairs and 5 client states (quick tier: handshaking clients get the server-sent messages with the types a client reads, other messages up to 64 bytes)")
 }
